@@ -119,6 +119,11 @@ pub trait Scenario: 'static {
     fn stack_bytes() -> usize {
         8 << 20
     }
+    /// Extra watchdog allowance for a case that is legitimately slow (megabyte documents): added to
+    /// every per-run deadline, so that a loaded machine does not turn a big input into a "hang".
+    fn extra_time(_case: &Self::Case) -> Duration {
+        Duration::from_secs(0)
+    }
     /// Outcomes of this scenario can depend on HashMap/HashSet iteration order. Such a run is executed
     /// twice: a throw-away priming execution first (so that every lazily initialised global the case
     /// touches exists before the judged execution and cannot shift its RandomState key counter), then
@@ -473,10 +478,10 @@ fn minimise<S: Scenario>(env: Envelope<S::Case>, sig: &str, isolated: bool) -> (
     let budget = if isolated { 40 } else { 20_000 };
     let try_one = |e: &Envelope<S::Case>| -> Option<(String, String)> {
         if isolated {
-            let r = exec_isolated::<S>(e, Duration::from_secs(3));
+            let r = exec_isolated::<S>(e, Duration::from_secs(3) + S::extra_time(&e.case));
             r.signature.map(|s| (s, r.detail))
         } else {
-            match execute_in_thread::<S>(e, Duration::from_secs(20)) {
+            match execute_in_thread::<S>(e, Duration::from_secs(20) + S::extra_time(&e.case)) {
                 ThreadResult::Done(o) => o.violation.map(|v| (v.signature, v.detail)),
                 ThreadResult::Hang => None,
             }
@@ -565,7 +570,7 @@ pub fn worker_main<S: Scenario>(args: &[String]) -> i32 {
         }
         probe::set_run(k);
         let env = make_envelope::<S>(seed, tier, k);
-        match execute_in_thread::<S>(&env, Duration::from_secs(15)) {
+        match execute_in_thread::<S>(&env, Duration::from_secs(15) + S::extra_time(&env.case)) {
             ThreadResult::Hang => {
                 let mut o = stdout.lock();
                 let _ = writeln!(o, "{}", json!({"type":"hang","k":k}));
@@ -667,7 +672,7 @@ pub fn exec_main<S: Scenario>(args: &[String]) -> i32 {
     probe::set_run(u64::MAX);
     warm_up::<S>(Duration::from_secs(2));
     probe::set_run(0);
-    match execute_in_thread::<S>(&env, Duration::from_secs(16)) {
+    match execute_in_thread::<S>(&env, Duration::from_secs(16) + S::extra_time(&env.case)) {
         ThreadResult::Hang => 3,
         ThreadResult::Done(o) => {
             match o.violation {
@@ -834,7 +839,7 @@ fn run_pool<S: Scenario>(tier: Tier, seed: u64, runs: u64, jobs: u64, dir: &str,
                         std::process::exit(2);
                     }
                     let env = make_envelope::<S>(seed, tier, k);
-                    let iso = exec_isolated::<S>(&env, Duration::from_secs(20));
+                    let iso = exec_isolated::<S>(&env, Duration::from_secs(20) + S::extra_time(&env.case));
                     if let Some(sig) = iso.signature {
                         let isolated = is_crash_class(&sig);
                         // one minimisation per signature for the whole pool: isolated shrinking is slow
@@ -976,7 +981,7 @@ pub fn run_main<S: Scenario>(tier: Tier) -> i32 {
         std::fs::write(&path, serde_json::to_string_pretty(&replay).unwrap()).expect("write replay");
         // a violation is only reported once its replay reproduces in a fresh process
         let env: Envelope<S::Case> = serde_json::from_value(v.envelope.clone()).expect("envelope");
-        let iso = exec_isolated::<S>(&env, Duration::from_secs(25));
+        let iso = exec_isolated::<S>(&env, Duration::from_secs(25) + S::extra_time(&env.case));
         if iso.signature.as_deref() != Some(sig.as_str()) {
             println!("HARNESS-ERROR replay of {path} gave {:?}, expected {sig}", iso.signature);
             exit = 2;
@@ -1087,7 +1092,7 @@ pub fn replay_main<S: Scenario>(path: &str) -> i32 {
             return 2;
         }
     };
-    let iso = exec_isolated::<S>(&env, Duration::from_secs(25));
+    let iso = exec_isolated::<S>(&env, Duration::from_secs(25) + S::extra_time(&env.case));
     let _ = std::fs::remove_dir_all(scratch_dir());
     match iso.signature {
         Some(sig) if sig == expected => {
